@@ -35,11 +35,13 @@ def _props(P):
         "C11": sim("TestC11", (4, 300, 300), (16, 5000, 3000), regress="TestRegressC11",
                    also=[dict(pkg="kernelq", test="TestC11b", quick=(2, 12, 300), thorough=(8, 150, 1800), env={})]),
         "C13": P("proc", "TestC13", (3, 4, 600), (12, 40, 3000), extra_env={"VERIF_NEEDS_SERVER": "1", "VERIF_SHRINK": "1ms"}),
-        "C14": sim("TestC14", (4, 600, 300), (16, 10000, 3000), also=[equiv("SearchPromises,SearchSchedules")]),
+        "C14": sim("TestC14", (4, 600, 300), (16, 10000, 3000), also=[equiv("SearchPromises,SearchSchedules"),
+                   dict(pkg="front", test="FuzzForgedCursor", quick=(1, 1, 300), thorough=(1, 1, 600), env={}, fuzz=60)]),
         "C15": front("TestC15", (4, 1500, 300), (8, 20000, 1200)),
         "C12": P("kernelq", "TestC12", (4, 1500, 300), (16, 6000, 1800), also=[dict(pkg="front", test="TestRefusals", quick=(1, 1, 300), thorough=(1, 1, 600), env={})]),
         "C18": P("pollt", "TestC18", (4, 1500, 300), (16, 6000, 1200)),
-        "C19": P("route", "TestC19", (4, 20000, 300), (16, 100000, 1200), also=[dict(pkg="route", test="TestC19b", quick=(2, 150, 300), thorough=(8, 1500, 1200), env={})]),
+        "C19": P("route", "TestC19", (4, 20000, 300), (16, 100000, 1200), also=[dict(pkg="route", test="TestC19b", quick=(2, 150, 300), thorough=(8, 1500, 1200), env={}),
+                         dict(pkg="route", test="FuzzC19Tag", quick=(1, 1, 300), thorough=(1, 1, 600), env={}, fuzz=90)]),
         "C16": store("TestC16", (4, 300, 300), (16, 1200, 2400)),
         "C17": store("TestC17", (4, 400, 300), (16, 2500, 2400)),
         "C20": proc("TestC20", (150, 420), (8, 1500, 3000)),
